@@ -259,3 +259,23 @@ def _():
     ensures("mirror", all(any(c["trigger"] == "check_" + r["trigger"] and c["source"] == r["source"]
                               and (c["dest"] == r["dest"] or r["trigger"] == "multiscale") for c in _transitions_check)
                           for r in _transitions_run))
+
+
+# C01 ("an accepted pipeline is returned as written: steps are not reordered") and C05 ("every user-supplied key keeps its value and
+# position"): check_pipeline_section merges dictionaries with update_conf(base, overlay), whose result takes its key order from the
+# BASE (a deep copy of it, overlay keys written over / appended).  Trace obligations: the configuration handed to the machine is the
+# user's laid over the defaults, and the returned one is the machine's checked steps laid over a base that comes from the USER's
+# configuration -- not over the machine's own record, whose order is whatever earlier checks of the same machine left in it.
+@contract("pandora.check_configuration.check_pipeline_section", props=["C01", "C05"])
+def _(user_cfg, img_left, img_right, pandora_machine):
+    types(user_cfg="opaque", img_left="opaque", img_right="opaque", pandora_machine="opaque")
+    option(glue=True)
+    ensures("user_over_defaults", ncalls("update_conf") == 2,
+            call_arg_mentions("update_conf", 0, 0, "default_short_configuration_pipeline"),
+            call_arg_mentions("update_conf", 0, 1, "user_cfg"))
+    ensures("machine_checks_the_merged_user_configuration", ncalls("check_conf") == 1,
+            call_arg_mentions("check_conf", 0, 0, "user_cfg"), called_before("update_conf", "check_conf"))
+    ensures("user_order_kept", call_arg_mentions("update_conf", 1, 0, "user_cfg"),
+            not call_arg_mentions("update_conf", 1, 0, "pandora_machine"),
+            call_arg_mentions("update_conf", 1, 1, "pandora_machine.pipeline_cfg"),
+            not call_arg_mentions("update_conf", 1, 1, "user_cfg"))
